@@ -67,11 +67,11 @@ def gen_case(rng, want_empty_title=None):
 
     def add_target():
         name = rng.choice(names_pool)
-        kind = rng.choice(["t_block", "t_block", "a_block", "a_span", "d_adm", "d_note"])
+        kind = rng.choice(["t_block", "t_block", "a_block", "a_span", "d_adm", "d_note", "a_link"])
         quote = rng.random() < 0.25 and kind in ("t_block", "a_span")
         m = marker()
         title = None
-        if kind in ("a_block", "a_span") and " " in name:
+        if kind in ("a_block", "a_span", "a_link") and " " in name:
             kind = "t_block"
         if kind == "t_block":
             emit([f"({name})=", f"{m} para"], quote)
@@ -82,6 +82,10 @@ def gen_case(rng, want_empty_title=None):
         elif kind == "a_span":
             emit([f"see [{m}]{{#{name}}} here"], quote)
             tag = "inline"
+        elif kind == "a_link":
+            # an attribute id on an external link: the reference node carries the id
+            emit([f"see [{m}](https://example.org/{m}){{#{name}}} there"], quote)
+            tag = "reference"
         elif kind == "d_adm":
             title = f"Title {m}"
             emit([f"```{{admonition}} {title}", f":name: {name}", "", "body", "```"])
@@ -93,7 +97,9 @@ def gen_case(rng, want_empty_title=None):
 
     def add_links():
         n = rng.randint(1, 3)
-        place = rng.choice(["para", "para", "list", "quote", "note", "table"])
+        place = rng.choice(["para", "para", "list", "quote", "note", "table", "dl", "field", "footnote", "heading"])
+        if place == "field" and not lines:
+            place = "para"     # a field list that opens a document is file-wide metadata (docinfo), not content
         items = []
         for _ in range(n):
             lm = marker("lk")
@@ -107,6 +113,27 @@ def gen_case(rng, want_empty_title=None):
             start = emit(["```{note}", "x " + " y ".join(i["src"] for i in items), "```"])
             for i in items:
                 i["line"] = start + 1
+        elif place == "dl":
+            # first link in the term, the others in the definition
+            start = emit(["Term " + items[0]["src"], ": x " + " y ".join(i["src"] for i in items[1:])])
+            items[0]["line"] = start
+            for i in items[1:]:
+                i["line"] = start + 1
+        elif place == "field":
+            start = emit([":fld: x " + " y ".join(i["src"] for i in items)])
+            for i in items:
+                i["line"] = start
+        elif place == "footnote":
+            fm = marker("fn")
+            emit([f"see[^{fm}]"])
+            start = emit([f"[^{fm}]: x " + " y ".join(i["src"] for i in items)])
+            for i in items:
+                i["line"] = start
+        elif place == "heading":
+            hm = marker("Zed")
+            start = emit([f"### {hm} " + " y ".join(i["src"] for i in items)])
+            for i in items:
+                i["line"] = start
         else:
             body = "x " + " y ".join(i["src"] for i in items)
             if place == "list":
@@ -191,7 +218,8 @@ def gen_case(rng, want_empty_title=None):
                            "rubric": h["rubric"]}
         else:
             l["expect"] = {"hit": "missing"}
-    settings = {"myst_enable_extensions": ["attrs_block", "attrs_inline"], "myst_heading_anchors": heading_anchors,
-                "doctitle_xform": rng.random() < 0.5}
+    settings = {"myst_enable_extensions": ["attrs_block", "attrs_inline", "deflist", "fieldlist"],
+                "myst_heading_anchors": heading_anchors, "doctitle_xform": rng.random() < 0.5,
+                "myst_footnote_sort": False}     # keeps links inside footnote bodies in written order
     return {"kind": "doc", "text": text, "settings": settings, "links": links,
             "dup_names": sorted(n for n, c in count.items() if c > 1)}
